@@ -128,3 +128,23 @@ Definition roundtrip_case (e : endian) (t : ty) (v : value) (data : bytes) (obs 
 Definition fixpoint_case (t : ty) (obs_v : value) (same_value same_bytes consumed_all : bool) : list Z :=
   if same_bytes && consumed_all && (same_value || negb (greedy_tail_aligned t obs_v)) then []
   else [92; b2z same_value; b2z same_bytes; b2z consumed_all].
+
+From Prophy Require Import PcModel.
+
+Definition stiff_code (s : stiff) : Z := match s with Fixed => 0 | Dynamic => 1 | Unlimited => 2 end.
+
+(* C04, prophyc side. obs = [byte_size; alignment; kind] and the per-member lists
+   (byte_size, alignment, padding) of a struct node; for unions only obs. *)
+Definition pc_case (t : ty) (obs : list Z) (obs_sizes obs_aligns obs_pads : list Z) : list Z :=
+  let m := [pc_size t; pc_align t; pc_kind t] in
+  let s := [size t; align t; stiff_code (stiffness t)] in
+  let members_ok :=
+    match t with
+    | TStruct fs =>
+        beq (map pm_size (pc_members fs)) obs_sizes && beq (map pm_align (pc_members fs)) obs_aligns
+        && beq (pc_paddings fs) obs_pads
+    | _ => true
+    end in
+  let model_ok := beq m obs && members_ok in
+  let spec_ok := beq s obs in
+  if model_ok && spec_ok then [] else [91; b2z model_ok; b2z spec_ok] ++ m ++ s.
